@@ -344,7 +344,7 @@ def run(R):
     chkc = [c for (n, c) in calls_in_ctx(pc) if ast.unparse(c.func).endswith('parse_and_check_tl')]
     inst = pc.qual + ' :: outer type checked, parsed as CertificateV2Value'
     okp = len(chkc) == 1 and len(chkc[0].args) > 1 and P.const_value(pc.f.mod, chkc[0].args[1]) == 0x06 and \
-        all(isinstance(r.ast.value, ast.Call) and ast.unparse(r.ast.value.func) == 'CertificateV2Value.parse' for r in returns(pc))
+        bool(returns(pc)) and all(full_text(pc, r.ast.value).startswith('CertificateV2Value.parse(') for r in returns(pc))      # (directly, or through the local it was bound to)
     if okp:
         R.ok('C16.FLD.1', inst, site(pc, chkc[0]))
     else:
